@@ -55,7 +55,7 @@ def _judge(ctx, work, recs):
         for b in verdicts.get(r["id"], []):
             by.setdefault(b["cl"], []).append(b["at"])
         for cl, ats in by.items():
-            ctx.violation("%s fails for %s" % (cl, json.dumps({k: r["c"][k] for k in ("writer", "target0", "converter", "conv", "fault", "flavour", "outcome", "exc")})),
+            ctx.violation("%s fails for %s" % (cl, json.dumps({k: r["c"][k] for k in ("writer", "target0", "converter", "conv", "fault", "flavour", "fsfault", "outcome", "exc")})),
                           {"clause": cl, "at": min(ats), "scenario": {"sc": r["sc"]}, "observed": r["c"], "fs_events": r["ev"]})
 
 
@@ -79,7 +79,7 @@ def run(pid, tier, seed, replay=None):
             faults = set(first)
         else:
             faults = set(first) | set(rng.sample(range(1, ncalls + 1), min(ncalls, 2500)))
-        base = dict(Writers=WRITERS, Targets0=TARGETS, ConvOutcomes=CONV, Flavours={"base", "exc"}, HaveLibreOffice=have_lo)
+        base = dict(Writers=WRITERS, Targets0=TARGETS, ConvOutcomes=CONV, Flavours={"base", "exc"}, HaveLibreOffice=have_lo, FsFaults=set())
         # MODEL: every fault point class x converter outcome x target state x writer
         mc = dict(base); mc.update(Faults={1, 2}, EncodeBeforeOpen=True)
         res = family.model_check(ctx, work, "Export", mc, ["AllOrNothing", "TargetOnlyByLastStep", "MalformedRaises"], [], "as-implemented")
@@ -99,6 +99,10 @@ def run(pid, tier, seed, replay=None):
                                    Flavours={"base", "exc"})
         got = family.generate(ctx, work, "Export", g2, "faults")
         scs += [s for s in got if s["sc"]["fault"] != 0]
+        # crash points at file-system operations: the k-th mkdir / open-for-write / move of the export raises OSError
+        g3 = dict(base); g3.update(Faults=set(), FsFaults=set(range(1, 13)), EncodeBeforeOpen=True, ConvOutcomes={"ok"})
+        got3 = family.generate(ctx, work, "Export", g3, "fsfaults")
+        scs += [s for s in got3 if s["sc"]["fsfault"] != 0 and s["sc"]["converter"] == "stub"]
         seen = set()
         items = []
         for s in scs:
@@ -121,11 +125,15 @@ def run(pid, tier, seed, replay=None):
                 continue
             if it["sc"]["fault"] and not r["c"]["fault_fired"]:
                 continue
+            if it["sc"].get("fsfault"):
+                continue      # the model allows both outcomes (the operation may not exist, or the error may be absorbed by exist_ok)
             if obs != it["pred"]:
                 nd += 1
                 ctx.model_drift("C18 %s: model predicts %s, observed %s (%s)" % (json.dumps(it["sc"]), it["pred"], obs, r["c"]["exc"]))
         ctx.extra["conformance"] = {"compared_with_model_prediction": len(recs), "drift": nd, "exception_faults_absorbed_by_library": absorbed}
         ctx.extra["faults_injected"] = sum(1 for r in recs if r["c"]["fault_fired"])
+        ctx.extra["fs_faults_injected"] = sum(1 for r in recs if r["c"]["fs_fired"])
+        ctx.extra["fs_faults_raised"] = sum(1 for r in recs if r["c"]["fs_fired"] and r["c"]["outcome"] == "raised")
         if ctx.extra["faults_injected"] < 20:
             raise MachineryError("vacuity guard: too few faults injected")
         for r in recs[:2] + recs[-2:]:
